@@ -17,13 +17,18 @@ EXPLANATION = (
     "every candidate of the pattern, and instantiating the pattern gives the target up to reordering and regrouping of sums and products "
     "(independent normal form); injective renamings of the pattern yield at least one record. matchpy bridge: to/from round trip, "
     "instantiation law for every reported match and replacement, dot/star wildcards.  The search is by an external engine / generators "
-    "outside the PyVC subset: nothing is counted as proved.")
-ASSUMPTIONS = ["matchpy (external engine) is used as is"]
+    "outside the PyVC subset.  Deductive kernel (the only proved part; the property as a whole stays at the bounded level): "
+    "UnifierBase.unification_record_from_equation - the one place records are created - is proved, for every kind of left / right operand, to "
+    "return None or a record holding exactly the equation (lhs, rhs) with a variable on one side, a left variable being a declared candidate, and "
+    "never to refuse a candidate variable; tuples / lists are always refused.")
+ASSUMPTIONS = ["matchpy (external engine) is used as is",
+               "UnificationRecord(equations) stores its argument as .equations (assumed contract of the constructor; its lmap / rmap loop is outside the subset)"]
 TRUSTED_BASE = ["matchpy"]
 
 
 def proof_jobs(tier):
-    return []
+    from contracts import c16 as K
+    return [("function", fc, None, None) for fc in K.FUNCTIONS]
 
 
 def ac_norm(e):
